@@ -822,3 +822,87 @@ Definition single_run (st : option pstate) (ps : pscript)
 
 (* what the caller must get, from the meaning of the decisions (n nodes) *)
 Definition single_expected (n : nat) (ps : pscript) : pout := spec_page MSession n ps.
+
+(* ---- acceptor and property predicate of the single-page cases (kind P of the tie) -------- *)
+Inductive sres :=
+| SRows (rows : list row) (next : option pstate)   (* Ok((rows result, paging state response)) *)
+| SVoid                                            (* Ok with a non-rows result *)
+| SErr (e : err).
+Definition single_result (r : fetch_result) : sres :=
+  match r with
+  | FCompleted _ (RRows rows next) => SRows rows next
+  | FCompleted _ RVoid => SVoid
+  | FCompleted _ RNonResult => SErr e_unexpected
+  | FIgnored _ => SVoid                            (* not generated by the tie *)
+  | FFailed e => SErr e
+  end.
+Definition sres_eqb (a b : sres) : bool :=
+  match a, b with
+  | SRows r1 n1, SRows r2 n2 => list_eqb N.eqb r1 r2 && opt_eqb (list_eqb N.eqb) n1 n2
+  | SVoid, SVoid => true
+  | SErr e1, SErr e2 => e1 =? e2
+  | _, _ => false
+  end.
+(* the sentence of the property for a resumed page: every request carries the caller's state *)
+Definition prop_single_ok (st : option pstate) (obs_keys : list (nat * option pstate)) : bool :=
+  forallb (fun k => opt_eqb (list_eqb N.eqb) (snd k) st) obs_keys.
+Definition accept_single (st : option pstate) (ps : pscript) (obs : sres)
+           (obs_keys : list (nat * option pstate)) (obs_nodes : list target) : bool :=
+  let (keys, r) := single_run st ps in
+  sres_eqb obs (single_result r) && list_eqb key_eqb obs_keys keys &&
+  follows (ps_faults ps) None [] obs_nodes.
+
+(* ---- early drop of a read whose script holds a client timeout: same tolerance as for full
+   reads (the timeout may strike an earlier attempt) *)
+Definition accept_drop_timeout (m : mode) (script : list pscript) (cnt : nat)
+           (obs_items_ : list item) (obs_keys : list (nat * option pstate)) : bool :=
+  existsb (fun sc => accept_drop m sc cnt obs_items_ obs_keys && negb (ctor_fails m sc))
+          (early_timeouts script).
+
+(* ---- how a page request ends, stated WITHOUT a loop: positions and counts ------------------
+   The request ends at the first fault that (a) is terminal by itself -- client timeout,
+   DontRetry, IgnoreWriteError -- or (b) asks for another target (a connection that cannot be
+   acquired, RetryNextTarget) when the faults before it have already used up the [left] spare
+   targets; if no fault ends it, the response arrives.  [used] = spare targets consumed before
+   the list starts (0 at top level). *)
+Definition terminal (f : fault) : option pout :=
+  match f with
+  | FTimeout => Some (PoErr e_timeout)
+  | FErr e DDont => Some (PoErr e)
+  | FErr e DIgnore => Some (PoIgnored e)
+  | _ => None
+  end.
+Definition adv_err (f : fault) : err :=
+  match f with FConnFail => e_pool | FErr e _ => e | _ => 0 end.
+Definition ends_at (fs : list fault) (spare used : nat) (i : nat) : option pout :=
+  match nth_error fs i with
+  | None => None
+  | Some f =>
+      match terminal f with
+      | Some o => Some o
+      | None =>
+          if fault_advances f &&
+             Nat.leb spare (used + List.length (filter fault_advances (firstn i fs)))
+          then Some (PoErr (adv_err f)) else None
+      end
+  end.
+Fixpoint first_some {A} (l : list (option A)) : option A :=
+  match l with
+  | [] => None
+  | Some x :: _ => Some x
+  | None :: r => first_some r
+  end.
+Definition attempts_closed (fs : list fault) (spare used : nat) (resp : response) : pout :=
+  match first_some (map (ends_at fs spare used) (seq 0 (List.length fs))) with
+  | Some o => o
+  | None => PoResp resp
+  end.
+Definition spec_page_closed (m : mode) (n : nat) (ps : pscript) : pout :=
+  match m with
+  | MSession =>
+      match n with
+      | O => PoErr e_empty_plan
+      | S l => attempts_closed (ps_faults ps) l 0 (ps_resp ps)
+      end
+  | MConn => attempts_closed (flat_map conn_fault (ps_faults ps)) 0 0 (ps_resp ps)
+  end.
